@@ -38,7 +38,7 @@ var parkedEntries = []string{
 	"Iter.All", "Iter.Methods", "Iter.Routes", "Iter.Reverse", "Iter.Prefix",
 	"View", "Txn(false)", "Txn(false).Lookup", "Txn(false).Iter", "Txn(false).Snapshot",
 }
-var parkedStates = []string{"opened", "written", "updates", "snapshot"}
+var parkedStates = []string{"opened", "written", "updates", "snapshot", "queued", "iterating"}
 
 var parkedBlocked atomic.Int32
 
@@ -67,6 +67,16 @@ func parkedRouter(opts int) (*fox.Router, error) {
 	f, err := fox.New(o...)
 	if err != nil {
 		return nil, err
+	}
+	// a deep branch (30 levels): whatever the iterators keep per tree for deep traversals is in play
+	deep := "/z"
+	for i := 0; i < 30; i++ {
+		deep += "/" + string(rune('a'+i%26)) + itoa(i)
+		if i%3 == 2 {
+			if _, err := f.Handle("GET", deep, hidHandler(200+i), fox.WithAnnotation(hidKey{}, 200+i)); err != nil {
+				return nil, err
+			}
+		}
 	}
 	for i, p := range []string{"/a", "/a/b", "/a/{x}/c", "/d/*{w}", "/e/"} {
 		if _, err := f.Handle("GET", p, hidHandler(i+1), fox.WithAnnotation(hidKey{}, i+1)); err != nil {
@@ -242,6 +252,40 @@ func runParked(fields []string) string {
 			_ = sn.Len()
 			close(ready)
 			<-release
+			txn.Abort()
+		case "queued":
+			// an open write transaction AND a second writer waiting for the lock behind it
+			txn := f.Txn(true)
+			parkedWrites(txn)
+			second := make(chan struct{})
+			go func() {
+				defer close(second)
+				_, _ = f.Handle("GET", "/queued", hidHandler(103), fox.WithAnnotation(hidKey{}, 103))
+				_, _ = f.Delete("GET", "/queued")
+			}()
+			time.Sleep(30 * time.Millisecond) // let the second writer reach the lock
+			close(ready)
+			<-release
+			txn.Abort()
+			<-second
+		case "iterating":
+			// the writer is parked half-way through iterating its own uncommitted state
+			txn := f.Txn(true)
+			parkedWrites(txn)
+			n := 0
+			parked := false
+			for range txn.Iter().All() {
+				n++
+				if n == 3 {
+					parked = true
+					close(ready)
+					<-release
+				}
+			}
+			if !parked {
+				close(ready)
+				<-release
+			}
 			txn.Abort()
 		default:
 			close(ready)
